@@ -19,8 +19,18 @@ import time
 
 from vlib import BUILD, Check, RunnerPool, compile_job, driver, hexs, log
 
-AF_CUR, AF_SPEC = "1110", "0000"          # d9 d10 d8b d8
-SWITCH_OFF = {"D9": "0110", "D10": "1010", "D8b": "1100"}
+AF_CUR, AF_SPEC = "1110", "0000"          # d9 d10 d8b d8: the code as found / the specified behaviour
+SWITCH_BIT = {"D9": 0, "D10": 1, "D8b": 2}
+
+
+def af_without(af, tag):
+    i = SWITCH_BIT[tag]
+    return af[:i] + "0" + af[i + 1:]
+
+
+def switch_off(af):
+    """the variants with exactly one of the switches that are on in `af` turned off"""
+    return {t: af_without(af, t) for t, i in SWITCH_BIT.items() if af[i] == "1"}
 NOTFOUND = "Can't find stylesheet to import."
 SFX = ["import.sass", "import.scss", "import.css", "sass", "scss", "css"]
 
@@ -130,7 +140,7 @@ CORPUS = [
 
 ENTRIES = ["main.scss", "main.scss", "sub/main.scss", "sub/deep/main.scss", "sub/main.sass"]
 LPS = ["lp1", "lp2", "sub/lp3", "lp1/in", "sub"]
-BASES = [["n", "n", "foo.bar", "x.import", "a-b_c"], ["k", "k", "baz.q"], ["z"]]
+BASES = [["n", "n", "n", "foo.bar", "foo.bar", "x.import", "a-b_c", "_p", "N.SCSS"], ["k", "k", "baz.q", "_r"], ["z"]]
 UDIRS = ["", "", "", "d", "d/e", ".."]
 KINDS = ["import", "use", "forward"]
 
@@ -144,7 +154,7 @@ def gen_random(rng, mode="mem"):
     nl = rng.choices([0, 1, 2, 3], weights=[30, 35, 25, 10])[0]
     lps = rng.sample(LPS, nl)
     nsteps = rng.choices([1, 2, 3], weights=[60, 30, 10])[0]
-    steps, files = [], {}
+    steps, files, dirs = [], {}, []
     prev_dirs = [dirname(entry)]
     for k in range(1, nsteps + 1):
         kind = rng.choice(KINDS)
@@ -170,6 +180,8 @@ def gen_random(rng, mode="mem"):
                 chosen += rng.sample(decoys, rng.choice([1, 1, 2]))
             if rng.random() < 0.04 and mode == "mem":
                 chosen.append(join(D, base))                     # a bare file of the URL's name
+            if mode == "std" and rng.random() < 0.12 and not explicit(base):
+                dirs.append(join(D, base))                       # an (otherwise possibly empty) real directory
             for f in chosen:
                 if f not in files and f != entry:
                     files[f] = k
@@ -181,7 +193,8 @@ def gen_random(rng, mode="mem"):
         for f in fs:
             if any(g.startswith(f + "/") for g in fs):
                 del files[f]
-    return mk_case(entry, steps, files, lps=lps, mode=mode, rooted=(rng.random() < 0.85) or mode == "std")
+        dirs = [d for d in dict.fromkeys(dirs) if d not in files]
+    return mk_case(entry, steps, files, lps=lps, mode=mode, dirs=dirs, rooted=(rng.random() < 0.85) or mode == "std")
 
 
 def gen_exhaustive(tier):
@@ -215,6 +228,7 @@ class Ctx:
         self.root = f"c13d-{os.getpid()}"            # decoy tree on the real disk, inside the runner's cwd
         self.std_root = os.path.join(BUILD, f"c13s-{os.getpid()}")
         self.std_n = 0
+        self.af_cur = AF_CUR                         # narrowed by detect_variant() when a witness went stale
 
     def cleanup(self):
         shutil.rmtree(os.path.join(BUILD, self.root), ignore_errors=True)
@@ -374,7 +388,7 @@ def make_disk_decoys(ctx, cases, models):
         pre = ctx.root
         importer = P(pre, case["entry"])
         for k, (res, _, _) in enumerate(models[ci][0]):
-            for af in (AF_CUR, AF_SPEC):
+            for af in (ctx.af_cur, AF_SPEC):
                 lines.append("import cands %s %s %s %s" % (af, importer, lst([P(pre, l) for l in case["lps"]]),
                                                           step_tok(case["steps"][k])))
                 owner.append(ci)
@@ -412,7 +426,7 @@ def evaluate(ctx, cases, count=True):
             case["_std_dir"] = os.path.join(ctx.std_root, str(ctx.std_n))
     pres = [prefix_of(ctx, c) for c in cases]
     # the model first (both variants)
-    outs = driver([chain_line(af, pre, c) for c, pre in zip(cases, pres) for af in (AF_CUR, AF_SPEC)])
+    outs = driver([chain_line(af, pre, c) for c, pre in zip(cases, pres) for af in (ctx.af_cur, AF_SPEC)])
     cur = [parse_chain(outs[2 * i]) for i in range(len(cases))]
     spec = [parse_chain(outs[2 * i + 1]) for i in range(len(cases))]
     ndecoy = make_disk_decoys(ctx, cases, cur)
@@ -428,8 +442,8 @@ def evaluate(ctx, cases, count=True):
             allf = [case["entry"]] + sorted(case["files"])
             importer = P(pre, case["entry"])
             for k, (res, calls) in enumerate(ob["steps"]):
-                dlines.append("import check %s %s %s %s %s %s %s" % (
-                    importer, lst([P(pre, l) for l in case["lps"]]), lst([P(pre, f) for f in allf]),
+                dlines.append("import check %s %s %s %s %s %s %s %s" % (
+                    AF_SPEC, importer, lst([P(pre, l) for l in case["lps"]]), lst([P(pre, f) for f in allf]),
                     lst([P(pre, d) for d in case["dirs"]]), step_tok(case["steps"][k]), res, lst(calls)))
                 if res.startswith("L:"):
                     importer = res[2:]
@@ -438,6 +452,7 @@ def evaluate(ctx, cases, count=True):
     douts = driver(dlines) if dlines else []
     verdicts = []
     variant_lines, variant_owner = [], []
+    attr_lines, attr_owner = [], []
     for ci, (case, pre, ob) in enumerate(zip(cases, pres, impls)):
         v = {"case": case, "impl": ob, "tie": None, "direct": None, "tags": [], "why": [], "ambiguous": False,
              "nontrivial": False, "unsupported": False}
@@ -461,10 +476,12 @@ def evaluate(ctx, cases, count=True):
             if a == b and not ob["anomaly"]:
                 why.append("more loads observed than the program performs")
             res_fail = False
+            failing_checks = []
             for line, ans in zip(dlines[a:b], douts[a:b]):
                 if line.startswith("import check"):
                     if ans != "ok holds":
                         why.append(ans)
+                        failing_checks.append(line)
                         res_fail = res_fail or " result " in ans
                 else:                                   # syntax of a loaded file, seen through its marker
                     p = line.split(" ")[2]
@@ -480,14 +497,22 @@ def evaluate(ctx, cases, count=True):
                 if ob["markers"] != want:
                     why.append("output markers differ from the files read")
             v["result_level"] = res_fail
+            if why and len(why) == len(failing_checks) and not v["ambiguous"]:
+                # every reason is a failed `checkLoad .spec`: is it explained by the known as-found switches?
+                # (judged on grass's own observation, independent of the tie)
+                for line in failing_checks:
+                    rest = line[len("import check 0000 "):]
+                    for tag, af in [("cur", ctx.af_cur)] + list(switch_off(ctx.af_cur).items()):
+                        attr_lines.append("import check %s %s" % (af, rest))
+                        attr_owner.append((ci, tag, " result " in douts[dlines.index(line, a, b)]))
         else:
             if not same_obs(case, ob, so):
                 why.append("std Fs: outcome differs from the specified search")
             v["result_level"] = True
         v["why"] = why
         v["direct"] = not why
-        if why and not v["ambiguous"] and v["tie"]:
-            for tag, af in SWITCH_OFF.items():
+        if why and not v["ambiguous"] and v["tie"] and case["mode"] == "std":
+            for tag, af in switch_off(ctx.af_cur).items():
                 variant_lines.append(chain_line(af, pre, case))
                 variant_owner.append((ci, tag))
     vouts = driver(variant_lines) if variant_lines else []
@@ -509,10 +534,38 @@ def evaluate(ctx, cases, count=True):
         tags = [t for t, rc, _ in lst3 if rc] if v.get("result_level") else []
         tags = tags or [t for t, _, ac in lst3 if ac] or [t for t, _, _ in lst3]
         v["tags"] = tags
+    aouts = driver(attr_lines) if attr_lines else []
+    per = {}
+    for (ci, tag, was_res), ans in zip(attr_owner, aouts):
+        per.setdefault(ci, []).append((tag, was_res, ans))
+    for ci, rows in per.items():
+        v = verdicts[ci]
+        if any(tag == "cur" and ans != "ok holds" for tag, _, ans in rows):
+            continue                                    # not what the code as it stands is known to do: untagged
+        need_res = [t for t, was_res, ans in rows if t != "cur" and was_res and " result " in ans]
+        need_any = [t for t, _, ans in rows if t != "cur" and ans != "ok holds"]
+        tags = need_res or need_any or list(switch_off(ctx.af_cur))
+        v["tags"] = [t for t in SWITCH_BIT if t in tags]
     if count:
         for v in verdicts:
             account(ck, v)
     return verdicts
+
+
+def detect_variant(ctx):
+    """Replay the witness of each known finding: a switch whose witness grass no longer exhibits is
+    turned off in the as-found model used for the tie (the entry is then reported as stale)."""
+    wit = {"D9": CORPUS[0], "D8b": CORPUS[3], "D10": CORPUS[2]}
+    af = AF_CUR
+    for tag in ("D9", "D8b", "D10"):                   # D10's witness also shows the D8b probes: decide D8b first
+        case = dict(wit[tag], decoy=False)
+        pre = prefix_of(ctx, case)
+        on, off = (parse_chain(x) for x in driver([chain_line(af, pre, case), chain_line(af_without(af, tag), pre, case)]))
+        ob = observe(ctx, case, ctx.pool.map([impl_job(ctx, case)], timeout=20)[0])
+        if on and off and not same_obs(case, ob, model_obs(case, pre, on[0])) and same_obs(case, ob, model_obs(case, pre, off[0])):
+            af = af_without(af, tag)
+    ctx.af_cur = af
+    return af
 
 
 def shape_of(case):
@@ -644,8 +697,9 @@ def bad(v):
 
 
 def shrink(ctx, v):
-    """Greedy: drop files / load paths / trailing steps while the case stays bad."""
+    """Greedy: drop files / load paths / trailing steps while the case stays bad (in the same way)."""
     best = v
+    need_result = bool(v.get("result_level")) and v["direct"] is False
     for _ in range(40):
         case = best["case"]
         cands = []
@@ -660,7 +714,7 @@ def shrink(ctx, v):
         if not cands:
             break
         vs = evaluate(ctx, [dict(c, decoy=False) for c in cands], count=False)
-        nxt = next((x for x in vs if bad(x)), None)
+        nxt = next((x for x in vs if bad(x) and (not need_result or (x.get("result_level") and x["direct"] is False))), None)
         if nxt is None:
             break
         best = nxt
@@ -702,15 +756,19 @@ def run(tier, seed):
 
 def _run(ck, ctx, tier):
     rng = ck.rng
+    af = detect_variant(ctx)
+    ck.cov["as_found_variant"] = {"d9": af[0], "d10": af[1], "d8b": af[2], "d8": af[3]}
+    if af != AF_CUR:
+        log(f"[C13] grass no longer shows every known finding: as-found model variant {af} used for the tie")
     cases = [dict(c) for c in CORPUS]
     cases += gen_exhaustive(tier)
-    n_rand = 4500 if tier == "quick" else 200000
-    n_std = 300 if tier == "quick" else 4000
-    n_decoy = 1200 if tier == "quick" else 12000
+    n_rand = 4000 if tier == "quick" else 200000
+    n_std = 250 if tier == "quick" else 4000
+    n_decoy = 500 if tier == "quick" else 8000
     rnd = [gen_random(rng) for _ in range(n_rand)]
     for c in rnd[:n_decoy]:
         c["decoy"] = c["rooted"]
-    for c in cases[:400]:
+    for c in cases[:200]:
         c["decoy"] = c["rooted"]
     cases += rnd
     cases += [gen_random(rng, mode="std") for _ in range(n_std)]
@@ -756,6 +814,7 @@ def _run(ck, ctx, tier):
                 seen_tagsets.add(ts)
         else:
             untagged.append(v)
+    untagged.sort(key=lambda v: (not v.get("result_level"), size(v["case"])))     # wrong file / wrong outcome first
     reported = 0
     for i, v in enumerate(untagged):
         if i >= 3:
@@ -773,7 +832,7 @@ def _run(ck, ctx, tier):
         ties_broken.sort(key=lambda v: size(v["case"]))
         small = shrink(ctx, ties_broken[0]) if ties_broken[0]["case"]["mode"] == "mem" else ties_broken[0]
         ck.unproved("correspondence-broken", {
-            "correspondence": "Grass.Import.chain AsFound.current vs grass (loaded files, error, Fs call sequence)",
+            "correspondence": f"Grass.Import.chain (as-found variant {ctx.af_cur}) vs grass (loaded files, error, Fs call sequence)",
             "cases": [describe(small)] + [describe(v) for v in ties_broken[1:3]], "count": len(ties_broken)})
     elif ctx.disagreements and not reported:
         ck.unproved("correspondence-broken", {"correspondence": "Grass.Import.importKind vs grass", "cases": ctx.disagreements[:5]})
